@@ -287,6 +287,8 @@ def tigerxml(tree, stream, **params):
     for terminal in trees.terminals(tree):
         stream.write(u"    <t id=\"%d\" " % terminal.data['num'])
         for field in ['word', 'lemma', 'label', 'morph']:
+            if terminal.data[field] is None:
+                terminal.data[field] = "--"
             terminal.data[field] = quoteattr(terminal.data[field])
         stream.write(u"%s=%s " % ('word', terminal.data['word']))
         stream.write(u"%s=%s " % ('lemma', terminal.data['lemma']))
@@ -302,7 +304,7 @@ def tigerxml(tree, stream, **params):
                             quoteattr(subtree.data['label'])))
             for child in trees.children(subtree):
                 stream.write(u"      <edge label=%s idref=\"%d\" />\n"
-                             % (quoteattr(child.data['edge']),
+                             % (quoteattr(child.data['edge'] or "--"),
                                 child.data['num']))
             stream.write(u"    </nt>\n")
     stream.write(u"  </nonterminals>\n")
